@@ -359,7 +359,7 @@ def read (src : Src) (st : DState) : Res (JVal × Lru Rev (List JVal)) :=
     | .panic m => .panic m
     | .ok (pool, c) =>
       match objGet ROOT_ID pool with
-      | none => .panic "root_object_not_found"
+      | none => .err "root_object_not_found"
       | some rootObj =>
         match unflatten (unflattenFuel pool rootObj) pool rootObj with
         | .ok _ v => (match v with
